@@ -270,6 +270,10 @@ def run_vcs(ctx: core.Ctx, vcs: List[VC], text_by_clause: Optional[Dict[str, str
         vcs = [v for v in vcs if any(v.clause.startswith(o) for o in only)]
     if not vcs:
         return
+    if bounded is not None:  # the concrete-shape rung rests on the modelled torch primitives: test them against real torch on this run
+        from . import crosscheck
+
+        crosscheck.guard(ctx)
     timeout_ms = 30000 if ctx.quick else 120000
     crosscheck = not ctx.quick
     _VCS.clear()
